@@ -55,7 +55,7 @@ CLAIMED = {
         technique=TECH + "; thread interleavings of the real code (line/opcode granularity via sys.settrace gating) as solver choice variables"),
     "C12": dict(
         text="%sAsserted: an uncaught failure makes run raise the same exception type and message, the failing job and each ancestor are recorded FAILED with an ErrorValue, a second execution submits the failed call again; plus solver-chosen histories of executions of one call whose body succeeds/fails with the cache on/off, and the real _get_cache on solver-chosen (result kind, cache type) pairs." % LAB,
-        note="Errors: an ordinary exception and one carrying an unpicklable attribute; <= 3-4 executions per history; plus the reuse template (stock executors): a failing call handled once by catch and reached again later, caught or uncaught.",
+        note="Errors: an ordinary exception and one carrying an unpicklable attribute; <= 3-4 executions per history; plus the reuse template (stock executors): a failing call handled once by catch and reached again later, caught or uncaught. One listed known finding (a repeated identical failure keeps the old call-node timestamp, so a later shallow lookup replays an intermediate success) is assumed away exactly and witnessed; outcomes of CAUGHT failures whose exception cannot be pickled are accepted (not C12's subject).",
         design="3/C08-C09-C06-C07-C12",
         technique=TECH + "; scheduler run natively with symbolic limits and solver-chosen schedules; execution histories as solver choice variables"),
     "C13": dict(
@@ -121,7 +121,7 @@ CLAIMED = {
         technique=TECH + "; command histories as solver choice variables, executed natively on the real backend; model oracle"),
     "C25": dict(
         text="(kernel, inductive step) from an ARBITRARY handle graph of 4 states on the S4 session (any DAG, symbolic validity bits, other-name states) satisfying 'derived from invalid => invalid', the real rollback_handle invalidates exactly the strict descendants of the target. (histories) Every history of handle operations up to the bound (fork, apply call, merge, rollback, rollback through the scheduler with the handle direct / nested in arguments, re-derivation with the same or a fresh object; operands solver-chosen) is run on the real advance_handle / rollback_handle / is_valid_handle of the in-memory SQLite backend and compared after every step with the lineage model; finally the real _get_cache must replay a cached result containing a state iff the model says the state is valid.",
-        note="<= 4 (quick) / 5 (thorough) operations on one handle name; kernel: 4 states; workflow histories: 3-4 executions of a handle-advancing task under solver-chosen code versions, cached or with cache=False.",
+        note="<= 4 (quick) / 5 (thorough) operations on one handle name; kernel: 4 states; workflow histories: 3-4 executions of a handle-advancing task under solver-chosen code versions, cached or with cache=False. One listed known finding (backend-level operations applied to an INVALID state leave / ignore an inconsistent lineage) is assumed away exactly and witnessed.",
         design="3/C25",
         technique=TECH + "; operation histories as solver choice variables, executed natively on the real backend; lineage-model oracle"),
     "C26": dict(
